@@ -17,6 +17,7 @@ let parse_stack (name : string) : S.stack =
           | ["array"; m; t] -> S.PArray (nat m, sty_of t)
           | ["constant"; n; tc; m; tv] -> S.PConstant (nat n, sty_of tc, nat m, sty_of tv)
           | ["identity"; n; t] -> S.PIdentity (nat n, sty_of t)
+          | ["probe"; n; tc; m; tv] -> S.PProbe (nat n, sty_of tc, nat m, sty_of tv)
           | _ -> failwith "prim") in
         ([], prim)
     | l :: rest ->
